@@ -47,9 +47,9 @@ type upConn struct {
 	pings    int
 	pongs    int           // pongs written successfully
 	pongLat  time.Duration // worst time between reading a ping and having written its pong
-	reused   bool // a subscribe arrived after every earlier subscription on it had ended
-	abrupt   bool // the client end vanished without a close handshake although the script did not drop it
-	wmu      sync.Mutex // serialises writers so that "written" and the wire agree
+	reused   bool          // a subscribe arrived after every earlier subscription on it had ended
+	abrupt   bool          // the client end vanished without a close handshake although the script did not drop it
+	wmu      sync.Mutex    // serialises writers so that "written" and the wire agree
 }
 
 // sent is one message the upstream wrote (or tried to write) for a subscription.
@@ -71,10 +71,48 @@ type got struct {
 }
 
 // subState is everything known about one subscription, from both ends.
+// subCtx is the context a subscriber passes to Subscribe. It ends when the harness says so, either the
+// way cancel() ends a context (Err() == context.Canceled) or the way a deadline does (Err() ==
+// context.DeadlineExceeded) - the latter without waiting for a wall clock, so "the subscriber's own
+// deadline passes while the ack is held" is a schedulable event like any other.
+type subCtx struct {
+	mu       sync.Mutex
+	done     chan struct{}
+	err      error
+	deadline time.Time // zero: no deadline reported
+}
+
+func newSubCtx(withDeadline bool) *subCtx {
+	c := &subCtx{done: make(chan struct{})}
+	if withDeadline {
+		c.deadline = time.Now().Add(time.Hour) // reported, never reached: expiry is triggered by the schedule
+	}
+	return c
+}
+
+func (c *subCtx) Deadline() (time.Time, bool) { return c.deadline, !c.deadline.IsZero() }
+func (c *subCtx) Done() <-chan struct{}       { return c.done }
+func (c *subCtx) Value(any) any               { return nil }
+func (c *subCtx) Err() error {
+	c.mu.Lock()
+	defer c.mu.Unlock()
+	return c.err
+}
+
+func (c *subCtx) end(err error) {
+	c.mu.Lock()
+	defer c.mu.Unlock()
+	if c.err == nil {
+		c.err = err
+		close(c.done)
+	}
+}
+
 type subState struct {
-	i      int
-	ctx    context.Context
-	cancel context.CancelFunc
+	i       int
+	ctx     *subCtx
+	cancel  context.CancelFunc
+	expired bool // ended by its own deadline, not by cancel
 
 	started      bool
 	returned     bool
@@ -90,15 +128,15 @@ type subState struct {
 	startSeq, returnSeq, endSeq int
 
 	// upstream side
-	seen      int      // subscribe messages / sse requests seen for this subscription
-	conn      *upConn  // ws: connection the subscribe arrived on
-	wire      string   // ws: wire id
-	stream    *upStream
-	sent      []sent
-	stopSeen  bool // ws: client sent complete/stop for the wire id
-	dropped   bool // its connection / stream was dropped by the script after the subscribe was seen
-	dropInSub bool // a scripted drop hit its tuple while its Subscribe call was in flight
-	silenced  bool // its connection stopped answering pings (ping part)
+	seen           int     // subscribe messages / sse requests seen for this subscription
+	conn           *upConn // ws: connection the subscribe arrived on
+	wire           string  // ws: wire id
+	stream         *upStream
+	sent           []sent
+	stopSeen       bool  // ws: client sent complete/stop for the wire id
+	dropped        bool  // its connection / stream was dropped by the script after the subscribe was seen
+	dropInSub      bool  // a scripted drop hit its tuple while its Subscribe call was in flight
+	silenced       bool  // its connection stopped answering pings (ping part)
 	inFlightCancel []int // same-tuple subscriptions cancelled while this Subscribe call was in flight
 }
 
@@ -110,7 +148,7 @@ type upStream struct {
 	cmds    chan sseCmd
 	kill    chan struct{} // closed by a scripted drop while the response headers are still held
 	open    bool          // headers written
-	closed  bool // handler returned
+	closed  bool          // handler returned
 	dropped bool
 }
 
@@ -130,18 +168,18 @@ type world struct {
 	ctx    context.Context
 	stop   context.CancelFunc
 
-	mu       sync.Mutex
-	changed  chan struct{}
-	gate     []chan struct{}
-	gateOpen []bool
-	conns    []*upConn
-	streams  []*upStream
-	subs     []*subState
-	upViol   []string // protocol-level observations at the upstream that are violations by themselves
-	seq      int        // logical clock for subscriber-side events
-	log      []logEntry // upstream-side event order (coverage classes only, never an oracle input)
-	wg       sync.WaitGroup
-	closing  bool // set under mu by close(); handlers that arrive later must not touch wg
+	mu         sync.Mutex
+	changed    chan struct{}
+	gate       []chan struct{}
+	gateOpen   []bool
+	conns      []*upConn
+	streams    []*upStream
+	subs       []*subState
+	upViol     []string   // protocol-level observations at the upstream that are violations by themselves
+	seq        int        // logical clock for subscriber-side events
+	log        []logEntry // upstream-side event order (coverage classes only, never an oracle input)
+	wg         sync.WaitGroup
+	closing    bool // set under mu by close(); handlers that arrive later must not touch wg
 	pongSilent map[int]bool
 }
 
@@ -184,7 +222,8 @@ func newWorld(c Case, cc clientCfg) *world {
 	})
 	for i := range c.Subs {
 		st := &subState{i: i}
-		st.ctx, st.cancel = context.WithCancel(context.Background())
+		st.ctx = newSubCtx(c.hasDeadline(i))
+		st.cancel = func() { st.ctx.end(context.Canceled) }
 		w.subs = append(w.subs, st)
 	}
 	return w
@@ -276,7 +315,7 @@ func (w *world) serveWS(rw http.ResponseWriter, r *http.Request) {
 		return
 	}
 	ws.SetReadLimit(1 << 20)
-	uc := &upConn{ws: ws, path: r.URL.Path, hdr: r.Header.Get("X-T"), proto: ws.Subprotocol(), ids: map[string]int{}, tuple: -1,
+	uc := &upConn{ws: ws, path: r.URL.Path, hdr: headerCanon(r.Header), proto: ws.Subprotocol(), ids: map[string]int{}, tuple: -1,
 		offered: strings.Join(splitTokens(r.Header.Values("Sec-WebSocket-Protocol")), ",")}
 	w.mu.Lock()
 	if w.closing { // accepted while the world is being torn down: wg.Add must not race with wg.Wait
@@ -471,7 +510,7 @@ func (w *world) serveSSE(rw http.ResponseWriter, r *http.Request) {
 	}
 	i := subIndex(op)
 	us := &upStream{sub: i, cmds: make(chan sseCmd), kill: make(chan struct{}), tuple: -1,
-		key: fmt.Sprintf("sse|%s|%s|X-T=%s", r.URL.Path, r.Method, r.Header.Get("X-T"))}
+		key: fmt.Sprintf("sse|%s|%s|X-T=%s", r.URL.Path, r.Method, headerCanon(r.Header))}
 	w.mu.Lock()
 	if w.closing {
 		w.mu.Unlock()
@@ -798,7 +837,13 @@ func (w *world) start(i int) {
 // cancelSub is what the production caller does when its client goes away: the context passed to
 // Subscribe is cancelled and the returned unsubscribe func is called (graphql_subscription_client.go
 // registers exactly that with context.AfterFunc).
-func (w *world) cancelSub(i int, byCase bool) {
+func (w *world) cancelSub(i int, byCase bool) { w.endSub(i, byCase, false) }
+
+// expireSub ends subscription i through its own deadline: ctx.Err() becomes context.DeadlineExceeded. The
+// production caller reacts to that exactly as to a cancel (context.AfterFunc fires on either).
+func (w *world) expireSub(i int) { w.endSub(i, true, true) }
+
+func (w *world) endSub(i int, byCase, deadline bool) {
 	st := w.subs[i]
 	w.mu.Lock()
 	if st.ctx.Err() != nil {
@@ -818,6 +863,10 @@ func (w *world) cancelSub(i int, byCase bool) {
 				o.inFlightCancel = append(o.inFlightCancel, i)
 			}
 		}
+	}
+	if deadline {
+		st.expired = true
+		st.ctx.end(context.DeadlineExceeded)
 	}
 	st.cancel() // under w.mu: the Subscribe goroutine reads ctx.Err() under w.mu too, so exactly one side unsubscribes
 	ret, unsub, err := st.returned, st.unsub, st.err
